@@ -11,7 +11,8 @@ struct Case {
   int pool = -1;
   int consumer = 0;  // 0 mtbl_sorter_iter, 1 mtbl_sorter_write
   int merge = 1;     // 1 concat; 0 none (only generated when all keys are distinct)
-  int vpad = 0;      // extra value bytes are not used (values are tokens); reserved
+  int vmode = 0;     // 0: values are unique 4-byte tokens, concatenating merge function; 1: variable-length values (0..40 bytes) and the
+                     // modular-sum merge function, whose result is usually SHORTER than its operands
   bool valid() const {
     if (keys.size() > 4000 || max_memory < 1 || pool > 16 || pool < -1 || consumer < 0 || consumer > 1) return false;
     if (merge == 0) {
@@ -23,7 +24,7 @@ struct Case {
   std::string ser() const {
     Out o;
     o << "property C06\n";
-    o << "opts max_memory=" << max_memory << " pool=" << pool << " consumer=" << consumer << " merge=" << merge << "\n";
+    o << "opts max_memory=" << max_memory << " pool=" << pool << " consumer=" << consumer << " merge=" << merge << " vmode=" << vmode << "\n";
     for (auto &k : keys) o << "add " << (k.empty() ? "-" : hex(k)) << "\n";
     return o.str();
   }
@@ -40,6 +41,7 @@ struct Case {
           else if (k == "pool") c.pool = (int)v;
           else if (k == "consumer") c.consumer = (int)v;
           else if (k == "merge") c.merge = (int)v;
+          else if (k == "vmode") c.vmode = v ? 1 : 0;
         }
       } else if (row[0] == "add") c.keys.push_back(row.size() > 1 && row[1] != "-" ? unhex(row[1]) : bytes());
     }
@@ -80,6 +82,7 @@ static Case gen_case() {
   c.consumer = chance(30);
   std::set<bytes, BLess> s(ks.begin(), ks.end());
   c.merge = (s.size() == ks.size() && chance(30)) ? 0 : 1;
+  c.vmode = chance(35);
   return c;
 }
 
@@ -98,10 +101,10 @@ static void body(const Case &c, Result &r) {
   std::string tdir = g_tmpdir + "/sort-" + std::to_string(getpid());
   mkdir(tdir.c_str(), 0700);
   // model
-  std::map<bytes, bytes, BLess> mm;
-  for (size_t i = 0; i < c.keys.size(); i++) mm[c.keys[i]] += token(0, (int)i);
+  std::map<bytes, std::vector<bytes>, BLess> mm;
+  for (size_t i = 0; i < c.keys.size(); i++) mm[c.keys[i]].push_back(family_value(c.vmode, 0, (int)i));
   RefTable model;
-  for (auto &kv : mm) model.e.push_back(kv);
+  for (auto &kv : mm) model.e.emplace_back(kv.first, fold_expected(c.vmode, kv.second));
 
   PoolHolder ph(c.pool);
   MergeClos mc;
@@ -109,7 +112,7 @@ static void body(const Case &c, Result &r) {
   struct mtbl_sorter_options *so = mtbl_sorter_options_init();
   mtbl_sorter_options_set_temp_dir(so, tdir.c_str());
   mtbl_sorter_options_set_max_memory(so, (size_t)c.max_memory);
-  if (c.merge) mtbl_sorter_options_set_merge_func(so, concat_merge, &mc);
+  if (c.merge) mtbl_sorter_options_set_merge_func(so, family_merge_func(c.vmode), &mc);
   if (ph.p) mtbl_sorter_options_set_threadpool(so, ph.p);
   struct mtbl_sorter *s = mtbl_sorter_init(so);
   mtbl_sorter_options_destroy(&so);
@@ -119,7 +122,7 @@ static void body(const Case &c, Result &r) {
   long long buffered = 0;
   int last_calls = 0;
   for (size_t i = 0; i < c.keys.size() && !r.fail; i++) {
-    bytes v = token(0, (int)i);
+    bytes v = family_value(c.vmode, 0, (int)i);
     mtbl_res ar = mtbl_sorter_add(s, U(c.keys[i]), c.keys[i].size(), U(v), v.size());
     if (ar != mtbl_res_success) r.failf("mtbl_sorter_add #%zu reported failure", i);
     buffered += (long long)(c.keys[i].size() + v.size());
@@ -181,8 +184,8 @@ static void body(const Case &c, Result &r) {
     if (got.size() != model.e.size()) r.failf("sorter produced %zu entries, expected %zu distinct keys", got.size(), model.e.size());
     for (size_t i = 0; i < std::min(got.size(), model.e.size()) && !r.fail; i++) {
       if (got[i].first != model.e[i].first) r.failf("output %zu has key %s, expected %s", i, show(got[i].first).c_str(), show(model.e[i].first).c_str());
-      else if (!token_multiset_eq(got[i].second, model.e[i].second))
-        r.failf("key %s: value %s does not fold exactly the values added for it (expected the tokens of %s)", show(got[i].first).c_str(), show(got[i].second).c_str(),
+      else if (!family_value_eq(c.vmode, got[i].second, model.e[i].second))
+        r.failf("key %s: value %s does not fold exactly the values added for it (expected %s, up to token order)", show(got[i].first).c_str(), show(got[i].second).c_str(),
                 show(model.e[i].second).c_str());
     }
     if (!r.fail && c.merge) {
@@ -210,6 +213,7 @@ static void body(const Case &c, Result &r) {
   if (c.keys.empty()) r.tag("empty_input");
   if (mm.count(bytes())) r.tag("empty_key");
   if (!c.merge) r.tag("no_merge_function");
+  if (c.vmode && c.merge && dup) r.tag("shrinking_merge_function");
   if (c.max_memory == 1) r.tag("one_entry_per_chunk");
   r.counters["chunks"] = chunks;
 }
